@@ -204,7 +204,8 @@ func c02Check(c *run.Ctx, st *c02State, b []byte, family string, salt uint64) []
 	// (vi) the real rasterizer, for moderate coordinates only
 	if st.rz.NMut > 0 && st.rz.MaxAbs <= 1e5 && salt%4 == 0 {
 		c.Count("vec_renders", 1)
-		c.Guard("Decode(Renderer+vec)", detail, func() {
+		// a panic raised inside golang.org/x/image/vector is not ivg's (DESIGN 6.5); counted, sampled
+		c.GuardDep("Decode(Renderer+vec)", "golang.org/x/image/", detail, func() {
 			if st.img == nil {
 				st.img = image.NewRGBA(image.Rect(0, 0, 72, 72))
 			}
